@@ -187,6 +187,10 @@ def c19_2(ctx):
     ctx.check(len(rv) == 1 and unparse(rv[0].value) == "self._config['general']['min_version']", 'version:min_version-key', vc.site(), 'the demanded version is general.min_version', '; '.join(unparse(x) for x in rv))
 
 
+def const_str_(e):
+    return e.value if isinstance(e, ast.Constant) and isinstance(e.value, str) else None
+
+
 _OPS = {'>=': 'operator.ge', '<=': 'operator.le', '>': 'operator.gt', '<': 'operator.lt', '==': 'operator.eq'}
 
 
@@ -198,13 +202,48 @@ def c19_3(ctx):
     ctx.check(got == _OPS, 'require:operator-table', site, 'each comparison string maps to the same-named comparison', str(got))
     pat = ctx.fold.class_const(RL, 'PATTERN_REQUIRE_LANGUAGE').pattern
     ctx.check('(==|>=|<=|>|<)' in pat, 'require:pattern-operators', site, 'the pattern recognises the five operators', pat[:80])
+    # shape of the requirement syntax: "<name>[ ws* <op> ws* <version>]" - blanks around the operator are optional
+    import re as _re
+    import re._parser as _P
+    rx_ = ctx.fold.class_const(RL, 'PATTERN_REQUIRE_LANGUAGE')
+    items = list(_P.parse(rx_.pattern, rx_.flags))
+    g1 = next((av for op, av in items if str(op) == 'SUBPATTERN' and av[0] == 1), None)
+    opt = next((av for op, av in items if str(op) == 'MAX_REPEAT' and av[0] == 0 and av[1] == 1), None)
+
+    def _ws_min(it):
+        op, av = it
+        if str(op) == 'MAX_REPEAT' and len(av[2]) == 1 and str(av[2][0][0]) == 'IN' and any(str(a) == 'CATEGORY' and str(b) == 'CATEGORY_SPACE' for a, b in av[2][0][1]):
+            return av[0]
+        return None
+    ok = g1 is not None and opt is not None
+    why = 'no optional version clause after the name group'
+    if ok:
+        seq = list(opt[2])
+        kinds = [('ws', _ws_min(it)) if _ws_min(it) is not None else ('grp', it[1][0]) if str(it[0]) == 'SUBPATTERN' else ('other', None) for it in seq]
+        ok = kinds == [('ws', 0), ('grp', 2), ('ws', 0), ('grp', 3)]
+        why = f'version clause is {kinds}'
+    ctx.check(ok, 'require:pattern-optional-blanks', site, 'the version clause is <blanks?> operator <blanks?> version: "name>=1.0" and "name >= 1.0" are the same requirement', why)
+    ok = False
+    if g1 is not None and len(g1[3]) == 1 and str(g1[3][0][0]) == 'MAX_REPEAT' and str(g1[3][0][1][2][0][0]) == 'IN':
+        from engine.rx import set_chars
+        cs = set_chars(g1[3][0][1][2][0][1], bool(rx_.flags & _re.I))
+        ok = set('abcxyzABCXYZ0189_-.') <= set(cs) and not (set(' <>="') & set(cs))
+    ctx.check(ok, 'require:pattern-name-class', site, 'a language name may contain letters, digits, "_", "-" and "." and stops at blanks, quotes and operator characters', '')
+    qi = [i for i, (op, av) in enumerate(items) if str(op) == 'LITERAL' and av == 34]
+    ctx.check(len(qi) == 2 and str(items[qi[0] + 1][0]) == 'SUBPATTERN' and qi[1] == len(items) - 1, 'require:pattern-quoted', site,
+              'the requirement is everything between the two double quotes (the closing quote follows the name or the version directly)', '')
     init = ctx.repo.func(RL + '.__init__')
     res = resolver(ctx, init, inline=False)
+    # a #require line the pattern does not match is an error, not a comment
+    g = ctx.cfg(init)
+    ok_, why_ = all_paths_imply(ctx, init, g.exit, ('isnone', 'require_match', False), res=res)
+    ctx.check(ok_, 'require:unmatched-line-exits', init.site(), 'a #require line that the pattern does not match never completes normally (it is an error, not a line to skip)',
+              f'the constructor returns normally on a {why_}: the requirement is silently ignored')
     name_chk = [i for i in walk_no_nested(init.node) if isinstance(i, ast.If) and body_only_aborts(i.body) and 'isa_name' in unparse(i.test)]
     ok = len(name_chk) == 1 and unparse(name_chk[0].test) in ('self._language != isa_model.isa_name', 'isa_model.isa_name != self._language')
     if ok:
         fcl = filter_facts_at(ctx, init, name_chk[0], res)
-        ok = fcl == [frozenset({('isnone', 'require_match', False)})]
+        ok = fcl in ([], [frozenset({('isnone', 'require_match', False)})])
         why = describe_facts(fcl)
     else:
         why = '; '.join(unparse(i.test) for i in name_chk)
@@ -239,6 +278,35 @@ def c19_3(ctx):
     mn = ctx.repo.func(MODEL + '.isa_name')
     rr = returns(mn)
     ctx.check(len(rr) == 1 and unparse(rr[0].value) == 'self._isa_name', 'require:model-name', mn.site(), 'isa_name is the definition\'s name', '')
+    # where the language name comes from: general.identifier.name, else the definition file's base name minus its (last) extension
+    minit = ctx.repo.func(MODEL + '.__init__')
+    path_param = minit.param_names[1] if len(minit.param_names) > 1 else None
+    stores = self_attr_stores(minit.node, '_isa_name')
+    _STEM = (f'os.path.splitext(os.path.basename({path_param}))[0]', f'pathlib.Path({path_param}).stem', f'Path({path_param}).stem',
+             f'os.path.basename(os.path.splitext({path_param})[0])')
+    n_src = 0
+    for st, tgt, val in stores:
+        v = val
+        txt = unparse(v) if v is not None else ''
+        if txt.startswith('self._isa_name.'):
+            ok = txt == "self._isa_name.strip().replace(' ', '_')"
+            ctx.check(ok, 'require:name-normalised', minit.site(st), 'the name is only normalised by trimming and replacing blanks with "_"', txt)
+            continue
+        n_src += 1
+        if isinstance(v, ast.Call) and isinstance(v.func, ast.Attribute) and v.func.attr == 'get' and len(v.args) == 2:
+            ok = unparse(v.func.value) == "self._config['general']['identifier']" and const_str_(v.args[0]) == 'name'
+            d = deref(ctx, minit, v.args[1], st)
+            ok = ok and unparse(d) in _STEM
+            txt = f'{txt} with default {unparse(d)}'
+        else:
+            d = deref(ctx, minit, v, st) if v is not None else None
+            ok = d is not None and unparse(d) in _STEM
+            txt = unparse(d) if d is not None else txt
+        ctx.check(ok, f'require:name-source:{n_src}', minit.site(st),
+                  'the language name is general.identifier.name, defaulting to the definition file\'s base name without its last extension',
+                  f'name taken from {txt}')
+    if n_src < 2:
+        ctx.err('require:name-source', minit.site(), 'two sources of the language name (identifier section present / absent)', f'{n_src}')
 
 
 def c19_4(ctx):
@@ -279,6 +347,11 @@ MUTANTS = [
                     f'configuration file declares language "{isa_model.isa_name}"'
                 )
             if len(require_match.groups()) >= 3''', 'C19.3'),
+    V('c19-require-needs-blank', _RL, "(?:\\s*(==|>=|<=|>|<)", "(?:\\s+(==|>=|<=|>|<)", 'C19.3'),
+    V('c19-require-unmatched-ignored', _RL, "        if require_match is None:\n            sys.exit(f'ERROR: {line_id} - the language requirement \"{instruction}\" is not understood')\n        else:\n", "        if require_match is not None:\n", 'C19.3'),
+    V('c19-require-name-no-dot', _RL, '([\\w\\-\\_\\.]*)', '([\\w\\-\\_]*)', 'C19.3'),
+    V('c19-name-first-dot', _M, "config_file_name = os.path.splitext(os.path.basename(config_file_path))[0]", "config_file_name = os.path.basename(config_file_path).split('.')[0]", 'C19.3'),
+    V('c19-name-from-description', _M, "self._config['general']['identifier'].get('name', config_file_name)", "self._config['general']['identifier'].get('name', self._config.get('description', config_file_name))", 'C19.3'),
     V('c19-require-swapped', _RL, "                                model_version_obj, self._version_obj\n", "                                self._version_obj, model_version_obj\n", 'C19.3'),
     V('c19-opset-missing-ok', 'assembler/model/operand_parser.py', '''            else:
                 sys.exit(
@@ -292,4 +365,7 @@ MUTANTS = [
     V('c19-zone-width', 'assembler/memory_zone/__init__.py', "if end > ((2**address_bits)-1):", "if end > (1 << address_bits):", 'C05.3'),
     V('c19-origin-global', _M, "                if self.default_origin < zone['start']:", "                if self.default_origin < 0:", 'C19.1'),
 ]
-TWINS = []
+TWINS = [
+    V('c19-t-name-pathlib', _M, "config_file_name = os.path.splitext(os.path.basename(config_file_path))[0]", "import pathlib\n        config_file_name = pathlib.Path(config_file_path).stem", None),
+    V('c19-t-require-elif', _RL, "        if require_match is None:\n            sys.exit(f'ERROR: {line_id} - the language requirement \"{instruction}\" is not understood')\n        else:\n", "        if require_match is None:\n            sys.exit(f'ERROR: {line_id} - the language requirement \"{instruction}\" is not understood')\n        if True:\n", None),
+]
